@@ -78,7 +78,7 @@ def run(ctx, rep):
                 ok = (list(x.keys()) == list(y.keys()) and all(L.same(x[t], y[t]) for t in x)) if isinstance(x, dict) else L.same(x, y)
                 if not ok:
                     rep.problem("dual", f"adaptation state {attr} differs between the two runs", where, "dual:adaptation", True, None, None, "C05_dual")
-    _loop.run_all(ctx, rep, "C05", predicate, 8, 60, force=dict(minimization=True))
+    _loop.run_all(ctx, rep, "C05", predicate, 24, 200, force=dict(minimization=True))
 
 
 def replay(ctx, rp):
